@@ -269,10 +269,20 @@ vf::Result check_unroll(const Prog& p) {
     } else {
         prog = gen_block(s, 0, 4096, true);
     }
+    // where the program lives: mostly page 0, otherwise high in program page 2 or 3 (which overlays data words 0xA000.. that the
+    // bodies never touch), so that the loop frames carry all 18 address bits
+    vf::Stream sb(vf::mix64(p.seed ^ 0xBA5E));
+    uint32_t base = sb.chance(2, 3) ? 0x1000 : (sb.bits(1) ? 0x2A000 : 0x3A000);
     std::vector<uint16_t> lo, un;
     uint64_t nl = 0, nu = 0;
-    emit(prog, true, 0x1000, lo, nl);
-    emit(prog, false, 0x1000, un, nu);
+    emit(prog, false, base, un, nu);
+    if (base != 0x1000 && un.size() > 0x5000) {
+        base = 0x1000;
+        un.clear();
+        nu = 0;
+        emit(prog, false, base, un, nu);
+    }
+    emit(prog, true, base, lo, nl);
     std::string desc;
     unsigned depth = 0;
     describe(prog, desc, depth);
@@ -281,6 +291,11 @@ vf::Result check_unroll(const Prog& p) {
         return vf::Result::pass();
     }
     State st = program_state(s);
+    st[flat::F_pc] = base;
+    if (base != 0x1000) {
+        desc += "@" + vf::hex(base) + " ";
+        vf::klass("program in page " + std::to_string(base >> 16));
+    }
     auto run = [&](const std::vector<uint16_t>& code, uint64_t cycles) {
         ICase c;
         c.st = st;
@@ -293,10 +308,10 @@ vf::Result check_unroll(const Prog& p) {
     icase::IResult rl = run(lo, nl), ru = run(un, nu);
     if (rl.outcome != 0 || ru.outcome != 0)
         return vf::Result::fail("C09:unroll:outcome", "program did not complete: looped '" + rl.what + "' unrolled '" + ru.what + "' for " + desc);
-    if (rl.after[flat::F_pc] != 0x1000 + lo.size())
+    if (rl.after[flat::F_pc] != base + lo.size())
         return vf::Result::fail("C09:unroll:pc", "after " + std::to_string(nl) + " instructions the looped program is at " + vf::hex(rl.after[flat::F_pc]) +
-                                                     " instead of its end " + vf::hex(0x1000 + lo.size()) + " (body ran a wrong number of times) for " + desc);
-    if (ru.after[flat::F_pc] != 0x1000 + un.size())
+                                                     " instead of its end " + vf::hex(base + lo.size()) + " (body ran a wrong number of times) for " + desc);
+    if (ru.after[flat::F_pc] != base + un.size())
         return vf::Result::fail("C09:unroll:harness", "unrolled program did not reach its end (harness error) for " + desc);
     // loop state clear
     if (rl.after[flat::F_lp] != 0 || rl.after[flat::F_bcn] != 0 || rl.after[flat::F_rep] != 0)
@@ -364,9 +379,13 @@ vf::Result check_counter(const Cnt& cc) {
     std::vector<uint16_t> code;
     uint64_t instr = 0;
     State st = flat::reset_state();
-    st[flat::F_pc] = 0x1000;
+    // the program sits in page 0, or (short sequences only: the store pointer must not reach it) high in page 2 / 3
+    const uint32_t cbase = ((cc.extra / 3) % 3 == 2 && n < 0x2000) ? (((cc.extra / 9) & 1) ? 0x3A000 : 0x2A000) : 0x1000;
+    st[flat::F_pc] = cbase;
     st[flat::F_r + 1] = 0x5000;
     st[flat::F_r + 2] = 0x7000;
+    if (cbase != 0x1000)
+        vf::klass("counter program in page " + std::to_string(cbase >> 16));
     if (cc.source != 0) {
         code.push_back(cc.source == 1 ? W("mov(Imm16,Register)", {-1, kRegR5}) : W("mov_r6(Imm16)", {-1}));
         code.push_back((uint16_t)n);
@@ -375,15 +394,15 @@ vf::Result check_counter(const Cnt& cc) {
     uint32_t store_base;
     if (cc.kind == 0) {
         // bkrep N { mov lc, [r1]+ ; (1 + extra) x inc a0 }   -- the store is not the last instruction of the block
-        uint32_t body_base = 0x1000 + (uint32_t)code.size() + 2;
+        uint32_t body_base = cbase + (uint32_t)code.size() + 2;
         unsigned extra = 1 + cc.extra % 3;
         uint32_t end = body_base + extra; // last word = the last inc
         if (cc.source == 0) {
             code.push_back(W("bkrep(Imm8,Address16)", {(long)n, -1}));
         } else if (cc.source == 1) {
-            code.push_back(W("bkrep(Register,Address18_16,Address18_2)", {kRegR5, -1, 0}));
+            code.push_back(W("bkrep(Register,Address18_16,Address18_2)", {kRegR5, -1, (long)(end >> 16)}));
         } else {
-            code.push_back(W("bkrep_r6(Address18_16,Address18_2)", {-1, 0}));
+            code.push_back(W("bkrep_r6(Address18_16,Address18_2)", {-1, (long)(end >> 16)}));
         }
         code.push_back((uint16_t)end);
         code.push_back(W("mov(Register,Rn,StepValue#4)", {kRegLc, 1, 1}));
@@ -520,7 +539,7 @@ int main(int argc, char** argv) {
     q.name = "loop_counter";
     q.gen = [] {
         auto nGen = gen::weightedOneOf<unsigned>({{6, vf::range<unsigned>(0, 41)}, {1, gen::element<unsigned>(255, 256, 0x7FFF, 0xFFFF)}, {1, vf::range<unsigned>(0, 0x10000)}});
-        return gen::map(gen::tuple(vf::range<unsigned>(0, 2), nGen, vf::range<unsigned>(0, 3), vf::range<unsigned>(0, 3)), [](std::tuple<unsigned, unsigned, unsigned, unsigned> t) {
+        return gen::map(gen::tuple(vf::range<unsigned>(0, 2), nGen, vf::range<unsigned>(0, 3), vf::range<unsigned>(0, 18)), [](std::tuple<unsigned, unsigned, unsigned, unsigned> t) {
             Cnt c;
             c.kind = std::get<0>(t);
             c.n = std::get<1>(t);
